@@ -19,6 +19,9 @@ PROFILES = {
     'C19': {'step_w': dict(STEP_W, fill_to=4, dilute=3, new_container=2.5), 'p_illegal': 0.03, 'p_infeasible': 0.0, 'p_stage': 0.1, 'post': (0, 0), 'steps': (3, 10)},
     'C04': {'step_w': STEP_W, 'p_illegal': 0.1, 'p_infeasible': 0.1, 'p_stage': 0.2, 'post': (0, 2), 'steps': (2, 8)},
     'C03': {'step_w': STEP_W, 'p_illegal': 0.06, 'p_infeasible': 0.5, 'p_stage': 0.1, 'post': (0, 0), 'steps': (2, 8)},
+    # transfers only: what the recipe moves is conserved over all declared objects, and wells no step addresses keep their contents
+    'C01': {'step_w': {'transfer': 1}, 'p_illegal': 0.03, 'p_infeasible': 0.0, 'p_stage': 0.1, 'post': (0, 0), 'steps': (2, 9), 'p_subslice': 0.3,
+            'p_top_up': 0.0},
     'C07': {'step_w': dict(STEP_W, transfer=10, remove=4, fill_to=4, dilute=0.3, solution=0.5, solution_from=0.2), 'p_illegal': 0.03, 'p_infeasible': 0.0, 'p_stage': 0.1, 'post': (0, 0), 'steps': (2, 8)},
 }
 
